@@ -19,7 +19,8 @@
 
    Step(S, ev, fix) is the call; fix is a set of repair switches: {} = the code as it stands,
      "numchips"  opn2_setNumChips validates before it stores
-     "trackopt"  opn2_setTrackOptions validates the option bits before it acts                     *)
+     "trackopt"  opn2_setTrackOptions validates the option bits before it acts
+     "dumper"    leaving the VGM dumper restores the chip count and the user's loop-hooks-only value          *)
 EXTENDS Common, TLC
 
 Bool(c) == IF c THEN 1 ELSE 0
@@ -51,28 +52,32 @@ Derive(S) == [S EXCEPT !.gvm = IF S.vs \in 0..4 THEN S.vs + 1 ELSE 1,
 
 ---------------------------------------------------------------------------
 (* the reset paths *)
-\* hook slots of the sequencer interface after the chips were re-created (OPNMIDI_MIDI2VGM build)
-AfterReset(S) == IF S.emu = Dumper /\ S.nco >= 1 THEN [S EXCEPT !.ils = 2, !.ile = 2, !.ho = 1]
-                 ELSE [S EXCEPT !.ils = S.hls, !.ile = S.hle]
-\* OPN2::reset(emulator, rate, family)
-SynthReset(S, fam) == AfterReset([S EXCEPT !.nco = IF S.emu = Dumper /\ (@ > 2 \/ @ < 0) THEN 2 ELSE @, !.gct = fam])   \* m_numChips is unsigned
+\* hook slots of the sequencer interface after the chips were re-created (OPNMIDI_MIDI2VGM build): the VGM
+\* dumper takes the loop hooks and forces "loop hooks only".  left = this reset leaves the dumper; with the
+\* repair "dumper" the user's own loop-hooks-only value comes back (the model does not know it: -1 = any).
+AfterReset(S, left, fix) ==
+  IF S.emu = Dumper /\ S.nco >= 1 THEN [S EXCEPT !.ils = 2, !.ile = 2, !.ho = 1]
+  ELSE [S EXCEPT !.ils = S.hls, !.ile = S.hle, !.ho = IF left /\ "dumper" \in fix THEN -1 ELSE @]
+\* OPN2::reset(emulator, rate, family); m_numChips is unsigned
+SynthReset(S, fam, left, fix) ==
+  AfterReset([S EXCEPT !.nco = IF S.emu = Dumper /\ (@ > 2 \/ @ < 0) THEN 2 ELSE @, !.gct = fam], left, fix)
 CrashChips(n) == n < 0 \/ n > 100000      \* vector::resize(2^31 .. 2^32 chips): bad_alloc / memory cap
 \* OPNMIDIplay::applySetup()
-ApplySetup(S) ==
+ApplySetup(S, fix) ==
   LET vs1 == IF S.vm \in 1..5 THEN S.vm - 1 ELSE S.vs
       S1 == [S EXCEPT !.mm = 0, !.pcmS = S.pcm, !.smodS = Bool(S.smod # 0),
                       !.vs = IF S.vm = 0 THEN S.bvm ELSE vs1,
                       !.nco = S.nc,
                       !.glfo = IF S.lfo < 0 THEN S.blfo ELSE Bool(S.lfo # 0),
                       !.glff = IF S.lff < 0 THEN S.blff ELSE S.lff % 256]
-  IN SynthReset(S1, IF S.ct < 0 THEN S.bct ELSE S.ct)
+  IN SynthReset(S1, IF S.ct < 0 THEN S.bct ELSE S.ct, FALSE, fix)
 \* OPNMIDIplay::partialReset()
-PartialReset(S) == SynthReset([S EXCEPT !.pcmS = S.pcm], S.gct)
+PartialReset(S, left, fix) == SynthReset([S EXCEPT !.pcmS = S.pcm], S.gct, left, fix)
 
 Ok(S) == [s |-> S, r |-> 0]
 Rej(S) == [s |-> S, r |-> -1]
 Crash(S) == [s |-> S, r |-> -99]
-Apply(S) == IF CrashChips(S.nc) /\ S.emu # Dumper THEN Crash(S) ELSE Ok(ApplySetup(S))
+Apply(S, fix) == IF CrashChips(S.nc) /\ S.emu # Dumper THEN Crash(S) ELSE Ok(ApplySetup(S, fix))
 SetBit(m, b, on) == IF on THEN BitSet(m, b) ELSE BitClr(m, b)
 Pow2(n) == IF n = 0 THEN 1 ELSE 2 ^ n
 SizeT(t) == IF t = -1 THEN -1 ELSE IF t < 0 THEN 2147483647 ELSE t      \* (size_t) of a negative int; ~0 = "no solo track"
@@ -81,18 +86,21 @@ Step(S, ev, fix) ==
   LET v == IF "v" \in DOMAIN ev THEN ev.v ELSE 0 IN
   CASE ev.e = "SetNumChips" ->
          IF v < 1 \/ v > 100 THEN (IF "numchips" \in fix THEN Rej(S) ELSE Rej([S EXCEPT !.nc = v]))
-         ELSE Ok(PartialReset([S EXCEPT !.nc = v, !.nco = v]))
-    [] ev.e = "SwitchEmulator" -> IF EmuAvail(v) THEN Ok(PartialReset([S EXCEPT !.emu = v])) ELSE Rej(S)
+         ELSE Ok(PartialReset([S EXCEPT !.nc = v, !.nco = v], FALSE, fix))
+    [] ev.e = "SwitchEmulator" ->
+         IF EmuAvail(v) THEN Ok(PartialReset([S EXCEPT !.emu = v, !.nco = IF "dumper" \in fix /\ S.nc \in 1..100 THEN S.nc ELSE @],
+                                             S.emu = Dumper /\ v # Dumper, fix))
+         ELSE Rej(S)
     [] ev.e = "SetVolModel" -> Ok([S EXCEPT !.vm = v, !.vs = IF v = 0 THEN S.bvm ELSE IF v \in 1..5 THEN v - 1 ELSE @])
     [] ev.e = "SetAlloc" -> Ok([S EXCEPT !.al = IF v < -1 \/ v >= 3 THEN -1 ELSE v])
     [] ev.e = "SetLfo" -> Ok([S EXCEPT !.lfo = v, !.glfo = IF v < 0 THEN S.blfo ELSE Bool(v # 0)])
     [] ev.e = "SetLfoFreq" -> Ok([S EXCEPT !.lff = v, !.glff = IF v < 0 THEN S.blff ELSE v % 256])
-    [] ev.e = "SetChipType" -> Apply([S EXCEPT !.ct = v])
+    [] ev.e = "SetChipType" -> Apply([S EXCEPT !.ct = v], fix)
     [] ev.e = "SetScaleMod" -> Ok([S EXCEPT !.smod = v, !.smodS = Bool(v # 0)])
     [] ev.e = "SetFullBright" -> Ok([S EXCEPT !.frb = Bool(v # 0)])
     [] ev.e = "SetArp" -> Ok([S EXCEPT !.arp = Bool(v # 0)])
     [] ev.e = "SetSoftPan" -> Ok([S EXCEPT !.span = Bool(v # 0)])
-    [] ev.e = "SetRunAtPcm" -> Ok(PartialReset([S EXCEPT !.pcm = Bool(v # 0)]))
+    [] ev.e = "SetRunAtPcm" -> Ok(PartialReset([S EXCEPT !.pcm = Bool(v # 0)], FALSE, fix))
     [] ev.e = "SetDevId" -> IF v < 0 \/ v > 15 THEN Rej(S) ELSE Ok([S EXCEPT !.dev = v])
     [] ev.e = "SetLoop" -> Ok([S EXCEPT !.loop = Bool(v # 0)])
     [] ev.e = "SetLoopCount" -> Ok([S EXCEPT !.ln = IF v = 0 THEN 1 ELSE v])
@@ -116,19 +124,19 @@ Step(S, ev, fix) ==
               [] ev.h = "dbg" -> [S EXCEPT !.hd = ev.on, !.idb = ev.on]
               [] ev.h = "ls" -> [S EXCEPT !.hls = ev.on, !.ils = ev.on]
               [] OTHER -> [S EXCEPT !.hle = ev.on, !.ile = ev.on])
-    [] ev.e \in {"Reset", "Probe", "PlaySong"} -> Ok(PartialReset(S))      \* both probes begin with opn2_reset
+    [] ev.e \in {"Reset", "Probe", "PlaySong"} -> Ok(PartialReset(S, FALSE, fix))      \* both probes begin with opn2_reset
     [] ev.e = "OpenBank" ->
          IF ev.bad # 0 THEN Rej(S)
          ELSE LET h == BankHdr(ev.b) IN
               Apply([S EXCEPT !.bvm = h.vs, !.blfo = h.lfo, !.blff = h.lff, !.bct = h.ct,
-                              !.vm = 0, !.lfo = -1, !.lff = -1, !.ct = -1, !.bd = BankDigest(ev.b)])
+                              !.vm = 0, !.lfo = -1, !.lff = -1, !.ct = -1, !.bd = BankDigest(ev.b)], fix)
     [] ev.e = "OpenMidi" ->
          IF S.bd = <<>> THEN Rej(S)                                   \* LoadMIDI_pre: "Bank is not set!"
          ELSE IF CrashChips(S.nc) /\ S.emu # Dumper THEN Crash(S)
-         ELSE LET S1 == ApplySetup(S) IN
+         ELSE LET S1 == ApplySetup(S, fix) IN
               IF ev.bad # 0 THEN Rej(S1)                              \* the parser rejects; the previous song stays
               ELSE LET sg == Song(ev.s) IN
-                   Ok(SynthReset([S1 EXCEPT !.nt = sg.nt, !.td = [i \in 1..sg.nt |-> 0], !.cd = 0, !.solo = -1], S1.gct))
+                   Ok(SynthReset([S1 EXCEPT !.nt = sg.nt, !.td = [i \in 1..sg.nt |-> 0], !.cd = 0, !.solo = -1], S1.gct, FALSE, fix))
     [] OTHER -> Ok(S)
 ModelStep(S, ev, fix) == LET x == Step(S, ev, fix) IN [s |-> Derive(x.s), r |-> x.r]
 
